@@ -3,6 +3,7 @@ package main
 import (
 	"go/ast"
 	"go/token"
+	"strings"
 )
 
 // regenerated facts of the "stores" family (C07 C08 C09 C10 C15)
@@ -111,6 +112,64 @@ func storesTail(xs []string) []string {
 	return xs[1:]
 }
 
+// storesSkeleton renders a statement list one level deep: what each statement tests and does.
+func storesSkeleton(list []ast.Stmt) []string {
+	var direct func(st ast.Stmt) string
+	direct = func(st ast.Stmt) string {
+		switch x := st.(type) {
+		case *ast.ReturnStmt:
+			return "return"
+		case *ast.BranchStmt:
+			if x.Label != nil {
+				return x.Tok.String() + " " + x.Label.Name
+			}
+			return x.Tok.String()
+		case *ast.ExprStmt:
+			if c, ok := x.X.(*ast.CallExpr); ok {
+				return callName(c)
+			}
+			return text(x.X)
+		case *ast.AssignStmt:
+			r := text(x.Lhs[0]) + " " + x.Tok.String()
+			if len(x.Rhs) == 1 {
+				if c, ok := x.Rhs[0].(*ast.CallExpr); ok {
+					r += " " + callName(c)
+				}
+			}
+			return r
+		case *ast.IfStmt:
+			if x.Init != nil {
+				if a, ok := x.Init.(*ast.AssignStmt); ok && len(a.Rhs) == 1 {
+					if c, ok := a.Rhs[0].(*ast.CallExpr); ok {
+						return "if " + callName(c)
+					}
+				}
+			}
+			return "if " + text(x.Cond)
+		case *ast.IncDecStmt:
+			return text(x.X) + x.Tok.String()
+		case *ast.ForStmt, *ast.RangeStmt:
+			return "loop"
+		case *ast.LabeledStmt:
+			return x.Label.Name + ": loop"
+		}
+		return "stmt"
+	}
+	var out []string
+	for _, st := range list {
+		if ifs, ok := st.(*ast.IfStmt); ok && ifs.Init == nil {
+			var inner []string
+			for _, b := range ifs.Body.List {
+				inner = append(inner, direct(b))
+			}
+			out = append(out, "if "+text(ifs.Cond)+" { "+strings.Join(inner, "; ")+" }")
+			continue
+		}
+		out = append(out, direct(st))
+	}
+	return out
+}
+
 func factsStores() {
 	// ---- C15
 	bucket := parse("pkg/store/bucket.go")
@@ -177,4 +236,28 @@ func factsStores() {
 	})
 	emitStr("storesLimitErrorStatus", "pkg/store/limiter.go limitError.GRPCStatus: the status of a violated limit", limStatus)
 	emitStr("storesLimiterCond", "pkg/store/limiter.go Limiter.ReserveWithType: the reservation and its test", limCond)
+
+	// ---- C09 / C10: the skeleton of blockSeriesClient.nextBatch
+	var loopBody, tail []string
+	if nb := fn(bucket, "blockSeriesClient", "nextBatch"); nb != nil && nb.Body != nil {
+		for i, st := range nb.Body.List {
+			if ls, ok := st.(*ast.LabeledStmt); ok && ls.Label.Name == "OUTER" {
+				if rs, ok := ls.Stmt.(*ast.RangeStmt); ok {
+					loopBody = storesSkeleton(rs.Body.List)
+				}
+				tail = storesSkeleton(nb.Body.List[i+1:])
+			}
+		}
+	}
+	emitList("storesNextBatchLoop", "pkg/store/bucket.go blockSeriesClient.nextBatch: the statements of the loop over a batch of postings", loopBody)
+	emitList("storesNextBatchTail", "pkg/store/bucket.go blockSeriesClient.nextBatch: what follows the loop (series reservation of lazily expanded postings, chunk loading)", tail)
+	var stored []string
+	for _, f := range []struct{ recv, name string }{{"bucketIndexReader", "ExpandedPostings"}, {"blockSeriesClient", "nextBatch"}} {
+		for _, c := range calls(body(fn(bucket, f.recv, f.name)), "storeExpandedPostingsToCache") {
+			if len(c.Args) >= 2 {
+				stored = append(stored, f.name+": "+text(c.Args[0])+", "+text(c.Args[1]))
+			}
+		}
+	}
+	emitList("storesExpandedPostingsStored", "pkg/store/bucket.go: what is stored as the expanded postings of (block, matchers)", stored)
 }
